@@ -30,6 +30,8 @@ FORMS = {
     'I1': '=MATCH(F1,A1:A8,0)', 'I2': '=MATCH(F1,A1:A8,1)', 'I3': '=MATCH(F1,A1:A8)',
     'J1': '=XMATCH(F1,A1:A8)', 'J2': '=XMATCH(F1,A1:A8,0)', 'J3': '=XMATCH(F1,A1:A8,0,1)', 'J4': '=XMATCH(F1,A1:A8,0,-1)',
     'K1': '=INDEX(B1:B8,MATCH(F1,A1:A8,0))', 'K2': '=INDEX(A1:D8,MATCH(F1,A1:A8,0),G1)', 'K3': '=INDEX(C1:C8,XMATCH(F1,A1:A8,0,-1))',
+    # the key column read twice in one evaluation, once from the end
+    'K4': '=INDEX(A1:A8,XMATCH(F1,A1:A8,0,-1))', 'K5': '=IFERROR(XMATCH(F1,A1:A8,0,-1),0)*100+IFERROR(MATCH(F1,A1:A8,0),0)', 'K6': '=IFERROR(XMATCH(F1,A1:A8,0,-1),0)&"|"&IFERROR(INDEX(A1:D8,2,1),"e")',
 }
 APPROX = {'H2', 'H3', 'I2', 'I3'}
 
@@ -141,6 +143,8 @@ def _plan(tier, seed):
     shards.append({'kind': 'index'})
     shards.append({'kind': 'horizontal', 'books': 6 if tier == 'quick' else 40})
     shards.append({'kind': 'addressopt', 'books': 3 if tier == 'quick' else 20})
+    for k in range(2 if tier == 'quick' else 6):
+        shards.append({'kind': 'bigtable', 'books': 2 if tier == 'quick' else 5})
     shards.append({'kind': 'wholecol', 'books': 4 if tier == 'quick' else 30})
     for part in range(4):
         shards.append({'kind': 'address', 'part': part, 'parts': 4})
@@ -283,6 +287,42 @@ def run_addressopt(shard, ctx):
         judge_book(ctx, ID, spec, targets, vals, exact=True, nontrivial=lambda case, outs: True, name=f'ao{bi}', monitor='address-optional-arguments')
         r.count('address_optional_argument_books')
     r.sample({'fn': 'ADDRESS with 3-5 arguments', 'formulas': ['=ADDRESS(F1,G1,IF(N1>3,4,1))', '=ADDRESS(F1,G1,K1,L1,M1)']})
+
+
+def run_bigtable(shard, ctx):
+    """key columns of more than a thousand rows (a price list, a calendar): the same clauses - the last row included when the value
+    exceeds every key - whatever strategy an implementation chooses for long vectors"""
+    r, rng = ctx.r, ctx.rng
+    for bi in range(shard['books']):
+        n = rng.choice([1001, 1024, 1200, 2047]) if bi else 1200
+        step = rng.choice([1, 3, 10])
+        start = rng.randrange(-50, 50)
+        kind = ['int', 'float', 'mixed', 'one-text', 'one-blank'][bi % 5]
+        cells = {'F1': start, 'G1': 2}
+        keys = []
+        for i in range(n):
+            k = start + i * step
+            if kind == 'float' or (kind == 'mixed' and i % 2):
+                k = k + 0.5
+            keys.append(k)
+            cells[f'A{i + 1}'] = k
+            cells[f'B{i + 1}'] = 100000 + i
+        if kind == 'one-text':
+            cells[f'C{n // 2}'] = 'note'
+        if kind == 'one-blank':
+            del cells[f'B{n // 3}']
+        forms = {'H1': f'=MATCH(F1,A1:A{n},1)', 'H2': f'=MATCH(F1,A1:A{n})', 'H3': f'=MATCH(F1,A1:A{n},0)', 'H4': f'=VLOOKUP(F1,A1:B{n},2,TRUE)', 'H5': f'=VLOOKUP(F1,A1:B{n},G1)',
+                 'H6': f'=INDEX(B1:B{n},MATCH(F1,A1:A{n},1))', 'H7': f'=XMATCH(F1,A1:A{n})', 'H8': f'=XMATCH(F1,A1:A{n},0,-1)', 'H9': f'=VLOOKUP(F1,A1:B{n},2,FALSE)',
+                 'H10': f'=INDEX(A1:B{n},MATCH(F1,A1:A{n}),2)'}
+        cells.update(forms)
+        spec = wbspec.spec(wbspec.sheet('T', cells))
+        looks = [keys[0], keys[0] - 1, keys[-1], keys[-1] + 1, keys[-1] + 7, keys[-2], keys[n // 2], keys[n // 2] + step / 2, keys[999], keys[1000], keys[-1] - step / 4, float(keys[-1])]
+        vals = [[(0, 'F1', lv), (0, 'G1', rng.choice([1, 2]))] for lv in looks]
+        judge_book(ctx, ID, spec, [(0, a) for a in forms], vals, exact=True, err_exact=lambda case: not case['formula'].startswith('=INDEX'), classify=classify,
+                   nontrivial=lambda case, outs: True, name=f'big{bi}', case_extra={'keys': f'{n} ascending keys from {start} step {step} ({kind})', 'table': 'big'},
+                   monitor='lookup-reference', pairs=False)
+        r.count('key_columns_over_1000_rows')
+    r.sample({'table': 'key columns of 1001-2047 rows', 'lookups': 'first, below, last, above the last, between, around row 1000'})
 
 
 def run_index(shard, ctx):
@@ -437,7 +477,7 @@ def run_shard(shard, ctx):
         if c.get('fn') == 'ADDRESS':
             return run_address({'cols': [c['col']]}, ctx)
         return replay_case(ctx, ID, c, exact=True, err_exact=lambda case: not case['formula'].startswith('=INDEX(B1') and not case['formula'].startswith('=INDEX(A1:D8,M') and not case['formula'].startswith('=INDEX(C1'), classify=classify)
-    {'lookup': run_lookup, 'horizontal': run_horizontal, 'addressopt': run_addressopt, 'index': run_index, 'address': run_address, 'column': run_column, 'wholecol': run_wholecol}[shard['kind']](shard, ctx)
+    {'lookup': run_lookup, 'bigtable': run_bigtable, 'horizontal': run_horizontal, 'addressopt': run_addressopt, 'index': run_index, 'address': run_address, 'column': run_column, 'wholecol': run_wholecol}[shard['kind']](shard, ctx)
 
 
 def finish(r, tier, seed):
